@@ -113,6 +113,12 @@ func (txn *writeTxnState) mustIndexWriteTxn(meta TableMeta, indexPos int) tableI
 	return indexTxn
 }
 
+// noGuardRevision is passed as the guard revision by the operations that are
+// not conditional on the revision of the existing object. Zero cannot be used
+// for this: CompareAndSwap() and CompareAndDelete() called with revision zero
+// must be rejected like with any other revision that no object has.
+const noGuardRevision = ^Revision(0)
+
 func (txn *writeTxnState) insert(meta TableMeta, guardRevision Revision, data any) (object, bool, <-chan struct{}, error) {
 	return txn.modify(meta, guardRevision, data, nil)
 }
@@ -135,7 +141,7 @@ func (txn *writeTxnState) modify(meta TableMeta, guardRevision Revision, newData
 	// modifying anything. A rejected operation must not leave a trace: reverting
 	// a speculative insert would still mark the index as changed and close the
 	// watch channels without anything having changed.
-	if guardRevision > 0 {
+	if guardRevision != noGuardRevision {
 		oldObj, _, oldExists := idIndexTxn.get(idKey)
 		if !oldExists {
 			return object{}, false, nil, ErrObjectNotFound
@@ -251,7 +257,7 @@ func (txn *writeTxnState) delete(meta TableMeta, guardRevision Revision, data an
 
 	// For CompareAndDelete() validate against the guard revision before deleting
 	// so that a rejected operation changes nothing (and closes no watch channels).
-	if guardRevision > 0 {
+	if guardRevision != noGuardRevision {
 		if obj, _, existed := idIndex.get(idKey); existed && obj.revision != guardRevision {
 			return obj, true, ErrRevisionNotEqual
 		}
